@@ -16,7 +16,10 @@ const ringMax = uint64(1)<<48 - 1
 
 // ---- id layouts --------------------------------------------------------------
 
-func genLayoutIDs(minN, maxN int) *rapid.Generator[[]uint64] {
+// layoutAnchors, when set by a generator's caller, adds a layout mode that
+// places ids just before/after the given identifiers (e.g. key hashes) so that
+// the generated nodes split a given key set between them.
+func genLayoutIDs(minN, maxN int, anchors ...uint64) *rapid.Generator[[]uint64] {
 	return rapid.Custom(func(t *rapid.T) []uint64 {
 		n := rapid.IntRange(minN, maxN).Draw(t, "n")
 		seen := map[uint64]bool{}
@@ -29,7 +32,15 @@ func genLayoutIDs(minN, maxN int) *rapid.Generator[[]uint64] {
 			}
 		}
 		for guard := 0; len(out) < n && guard < 200; guard++ {
-			switch rapid.IntRange(0, 4).Draw(t, "layout") {
+			mode := rapid.IntRange(0, 4).Draw(t, "layout")
+			if len(anchors) > 0 && rapid.IntRange(0, 2).Draw(t, "anchored") > 0 {
+				mode = 5
+			}
+			switch mode {
+			case 5: // next to an anchor (key hash): just at/after or before it
+				a := anchors[rapid.IntRange(0, len(anchors)-1).Draw(t, "anchor")]
+				off := rapid.SampledFrom([]int64{0, 1, -1, 2, 1 << 20, -(1 << 20), 1 << 36, -(1 << 36)}).Draw(t, "anchorOff")
+				add(a + uint64(off))
 			case 0: // uniform
 				add(rapid.Uint64Range(0, ringMax).Draw(t, "u"))
 			case 1: // clustered base+1..5
@@ -92,7 +103,13 @@ type simRing struct {
 // joined (Create/Join returned nil) and not (state Left or crashed).
 func (r *simRing) live() []*ringsim.Member {
 	var out []*ringsim.Member
+	memberMapMu.Lock()
+	all := make([]*ringsim.Member, 0, len(r.members))
 	for _, m := range r.members {
+		all = append(all, m)
+	}
+	memberMapMu.Unlock()
+	for _, m := range all {
 		if !m.Joined.Load() || m.Crashed() {
 			continue
 		}
@@ -115,7 +132,9 @@ func liveIDs(ms []*ringsim.Member) []uint64 {
 
 func (r *simRing) create(id uint64) (*ringsim.Member, error) {
 	m := r.net.Add(id)
+	memberMapMu.Lock()
 	r.members[id] = m
+	memberMapMu.Unlock()
 	if err := m.Node.Create(); err != nil {
 		return m, err
 	}
@@ -124,14 +143,7 @@ func (r *simRing) create(id uint64) (*ringsim.Member, error) {
 }
 
 func (r *simRing) join(id, via uint64) (*ringsim.Member, error) {
-	m := r.net.Add(id)
-	r.members[id] = m
-	err := m.Node.Join(r.net.Proxy(id, via))
-	m.JoinErr = err
-	if err == nil {
-		m.Joined.Store(true)
-	}
-	return m, err
+	return r.joinLocked(id, via)
 }
 
 // maintenanceRound runs one synchronous maintenance pass over the given
@@ -159,7 +171,7 @@ type convergence struct {
 	StaleTails int // departed nodes tolerated in list tails (rings with <= L members)
 }
 
-func checkConverged(ms []*ringsim.Member, fingers bool) convergence {
+func checkConverged(ms []*ringsim.Member, fingers bool, checkState ...bool) convergence {
 	var res convergence
 	ids := liveIDs(ms)
 	M := len(ids)
@@ -173,7 +185,7 @@ func checkConverged(ms []*ringsim.Member, fingers bool) convergence {
 	L := chord.ExtendedSuccessorEntries
 	for i, m := range ms {
 		st := m.Node.VerifState()
-		if st != chord.Active {
+		if st != chord.Active && (len(checkState) == 0 || checkState[0]) {
 			res.Problem = fmt.Sprintf("node %d state %s (not Active)", m.ID, st)
 			return res
 		}
@@ -246,11 +258,11 @@ func vids(vs []chord.VNode) []uint64 {
 // settle runs up to maxRounds maintenance rounds (quiet period defined in
 // rounds, not seconds) and returns the number of rounds used and the final
 // convergence verdict.
-func (r *simRing) settle(maxRounds int, fingers bool, order func(ms []*ringsim.Member)) (int, convergence) {
+func (r *simRing) settle(maxRounds int, fingers bool, order func(ms []*ringsim.Member), checkState ...bool) (int, convergence) {
 	var c convergence
 	for round := 0; round <= maxRounds; round++ {
 		ms := r.live()
-		c = checkConverged(ms, fingers)
+		c = checkConverged(ms, fingers, checkState...)
 		if c.Problem == "" {
 			return round, c
 		}
